@@ -49,9 +49,36 @@ def run(tier, seed):
         cases.append((c["schema"], from_wire(c["value"]), "corpus:" + name, False, False))
     n = scale(tier, 900)
     for i in range(n):
-        g = gen.Gen(seed * 10000019 + i, bytes_defaults=False, logical=False, float_int=True, tuple_seq=False)
+        # with disable_tuple_notation tuples are plain sequences, also under unions; without it a tuple
+        # under a union is a (name, value) hint, so tuple-valued arrays are generated only with the option on
+        dtn_case = (i % 6 == 3)
+        g = gen.Gen(seed * 10000019 + i, bytes_defaults=False, logical=False, float_int=True, tuple_seq=dtn_case,
+                    hints=not dtn_case, tuple_rate=0.5)
         try:
-            if i % 5 == 4:
+            if dtn_case and i % 12 == 3:
+                # a tuple used as a plain sequence below a union that itself sits inside a union branch: the
+                # option has to reach the validation of nested branches
+                r_ = g.r
+                inner_items = r_.choice(["string", ["string", "long"], "long"])
+                inner = {"type": "array", "items": inner_items}
+                U = r_.choice([["long", inner], [inner, "null"], ["string", inner]])
+                outer_kind = r_.choice(["array", "record", "map"])
+                if outer_kind == "array":
+                    s = ["null", {"type": "array", "items": U}]
+                elif outer_kind == "map":
+                    s = ["null", {"type": "map", "values": U}]
+                else:
+                    s = ["null", {"type": "record", "name": "Body", "fields": [{"name": "payload", "type": U}]}]
+                def item():
+                    if inner_items == "long":
+                        return r_.randint(0, 9)
+                    if inner_items == "string":
+                        return r_.choice(["a", "b", "long", "string"])
+                    return r_.choice(["a", 1, "string", 2])
+                tup = (item(), item())
+                v = [tup, tup] if outer_kind == "array" else ({"k": tup} if outer_kind == "map" else {"payload": tup})
+                ctx = None
+            elif i % 5 == 4:
                 s, data = gen.ambiguous_union_case(g)
                 ctx = None
                 v = g.r.choice(data)
@@ -61,7 +88,7 @@ def run(tier, seed):
         except Exception:
             continue
         strict = g.r.random() < 0.3
-        dtn = g.r.random() < 0.15
+        dtn = dtn_case
         cases.append((s, v, "conforming", strict, dtn))
         if ctx is not None:
             for _ in range(2):
